@@ -418,7 +418,11 @@ func (in *interp) stmt(fr *frame, s gen.Stmt) ctl {
 			in.statics[fr.fn.Name] = st
 		}
 		if _, ok := st[s.V.Name]; !ok {
-			st[s.V.Name] = s.Init
+			if s.IsStr {
+				st[s.V.Name] = s.StrInit
+			} else {
+				st[s.V.Name] = s.Init
+			}
 		} else {
 			in.cov["static.persist"]++
 		}
